@@ -90,7 +90,7 @@ func corpus() []core.Case {
 	bound, maxDepth, maxSched := 3, 60, 12000
 	if tier == "thorough" {
 		cfgs = append(append([]header{}, quickDFS...), thoroughDFS...)
-		maxSched = 400000
+		maxSched = 50000
 		maxDepth = 90
 	}
 	for _, cfg := range cfgs {
